@@ -53,6 +53,19 @@ func newEncoder(console bool) zapcore.Encoder {
 	return zapcore.NewJSONEncoder(encCfg())
 }
 
+// newEncoderCaller: as newEncoder, optionally with the caller column/key.
+func newEncoderCaller(console, caller bool) zapcore.Encoder {
+	cfg := encCfg()
+	if caller {
+		cfg.CallerKey = "caller"
+		cfg.EncodeCaller = zapcore.ShortCallerEncoder
+	}
+	if console {
+		return zapcore.NewConsoleEncoder(cfg)
+	}
+	return zapcore.NewJSONEncoder(cfg)
+}
+
 var stdLevels = []zapcore.Level{zapcore.DebugLevel, zapcore.InfoLevel, zapcore.WarnLevel, zapcore.ErrorLevel}
 
 func simSinkFor(r *zsim.Run, g *zsim.Stream, name string, frag int) *zsim.SimSink {
